@@ -290,3 +290,518 @@ def rule_shift(ctx, floor=2):
     r.positive_control(got == {'pow2:1L << shiftby': 'bad', 'pow2:(unsigned PY_LONG_LONG)1 << shiftby': 'ok'},
                        'signed 1L shifted by up to sizeof(long)*8 - 1 (fires) next to a correctly bounded unsigned shift (silent)')
     return r
+
+
+# ====================================================================================================================================
+# C07-POWLOOP: CMath.c::IntPow computes b ** e (algebraic witness) ; C07-POW2MODEL: the 2 ** n fast path ; C07-CPOW: the directive read
+# ====================================================================================================================================
+"""(C07-POWLOOP)  IntPow only multiplies: whatever it returns is a monomial b**k (times a constant).  The helper text is evaluated by the checker's C
+interpreter (rules/pC03.py) for an unsigned 64-bit instance with the base b = 3, whose multiplicative order modulo 2**64 is 2**62: for every exponent
+e < 2**62 the value 3**k mod 2**64 identifies k.  All exponents 0..255 (every bit pattern of eight exponent bits, i.e. every combination of "bit set /
+clear" x "position" the square-and-multiply loop distinguishes) and 2**k, 2**k +- 1 up to 2**40 are evaluated: the result must be 3**e mod 2**64.  The
+signed instance is evaluated for small operands (b in -3..3, e in -3..20) with wrapping arithmetic: b**e for e >= 0 whenever it fits, 0 for e < 0.
+
+(C07-POW2MODEL)  __Pyx__PyNumber_PowerOf2 is evaluated on a model PyLong (documented contracts of the accessors / C-API calls, shared with C05-MODEL) for
+LP64 and LLP64/ILP32 widths, with and without PyLong internals, for exponents -70..130, the neighbourhoods of 2**31, 2**32, 2**63, 2**64 and a non-int
+object: the returned object must be 2 ** exp as Python computes it (1 << exp, or the result of the generic PyNumber_Power fallback), never NULL without
+an exception.
+
+(C07-CPOW)  PowNode decides between the two columns of the documented table from self.is_cpow.  The rule checks that is_cpow is assigned from the *scoped*
+directive (a parameter's .directives['cpow'], a key Options defines, never Options' defaults), with the right polarity (truth table over the directive
+value), and that every entry point through which type analysis reaches compute_c_result_type (infer_type, analyse_types) calls the method that assigns it
+before delegating upwards, on every path."""
+import ast
+
+from ..core import AnalysisError
+from ..engine import pyflow, tables
+from ..engine.pyindex import walk_no_nested, is_self_attr
+from . import pC03 as MC
+
+POWLOOP_RID = 'C07-POWLOOP'
+
+
+def _intpow_text(ctx, signed):
+    d = ctx.cat.files.get('CMath.c', {}).get('IntPow', {}).get('impl')
+    if d is None:
+        raise AnalysisError('%s: CMath.c::IntPow vanished' % POWLOOP_RID)
+    text = strip_c_comments(d.raw).replace('%(type)s', 'sa_t').replace('%(func_name)s', 'sa_pow').replace('%(signed)s', '1' if signed else '0')
+    if re.search(r'%\(\w+\)s', text):
+        raise AnalysisError('%s: IntPow has a substitution key the rule does not know' % POWLOOP_RID)
+    return d, MC.select_variant(text, lambda c: bool(int(c)) if re.fullmatch(r'\d+', c.strip()) else (_ for _ in ()).throw(AnalysisError('%s: #if %s in IntPow' % (POWLOOP_RID, c))))
+
+
+def powloop_problems(text, signed):
+    funcs = MC.functions(text)
+    if 'sa_pow' not in funcs:
+        raise AnalysisError('%s: the instantiated IntPow does not define its function' % POWLOOP_RID)
+    f = funcs['sa_pow']
+    model = MC.Model({'char': (8, True), 'short': (16, True), 'int': (32, True), 'long': (64, True), 'long long': (64, True), 'size_t': (64, False), 'sa_t': (64, signed)}, 'LP64')
+    it = MC.Interp(model, funcs, {}, {})
+    it.signed_wraps = True
+    n = 0
+    try:
+        if not signed:
+            exps = set(range(0, 256))
+            for k in range(8, 41):
+                exps |= {(1 << k) - 1, 1 << k, (1 << k) + 1}
+            for e in sorted(exps):
+                n += 1
+                it.steps = 0
+                r = it.call_func(f, [(3, 64, False), (e, 64, False)])
+                want = pow(3, e, 1 << 64)
+                if r[0] != want:
+                    # identify the monomial that was computed, if it is one
+                    k = next((j for j in range(0, 600) if pow(3, j, 1 << 64) == r[0]), None)
+                    return n, ('value', 'sa_pow(b, %d) computes %s instead of b**%d (witness b = 3 modulo 2**64: got %d, 3**%d is %d)'
+                               % (e, 'b**%d' % k if k is not None else 'something that is not a power of b', e, r[0], e, want))
+            for b, e, want in ((0, 0, 1), (0, 5, 0), (1, 77, 1), (2, 63, 1 << 63), (5, 0, 1)):
+                n += 1
+                r = it.call_func(f, [(b, 64, False), (e, 64, False)])
+                if r[0] != want:
+                    return n, ('value', 'sa_pow(%d, %d) returns %d instead of %d' % (b, e, r[0], want))
+        else:
+            for b in range(-3, 4):
+                for e in range(-3, 21):
+                    n += 1
+                    it.steps = 0
+                    r = it.call_func(f, [(b, 64, True), (e, 64, True)])
+                    want = 0 if e < 0 else b ** e
+                    if r[0] != want:
+                        return n, ('value', 'the signed instance: sa_pow(%d, %d) returns %d instead of %d' % (b, e, r[0], want))
+    except MC.CUndefined as u:
+        return n, ('undefined', 'IntPow executes undefined behaviour: %s' % u)
+    except MC.Unsupported as u:
+        raise AnalysisError('%s: IntPow is outside the modelled C subset: %s' % (POWLOOP_RID, u))
+    return n, None
+
+
+POWLOOP_POSITIVE = '''
+static CYTHON_INLINE sa_t sa_pow(sa_t b, sa_t e) {
+    sa_t t = 1;
+    while (likely(e)) {
+        t *= (b * (e&1)) | ((~e)&1);
+        e >>= 1;
+    }
+    return t;
+}
+'''
+
+
+def rule_powloop(ctx, floor=2):
+    r = Rule(POWLOOP_RID, 'CMath.c::IntPow returns b**e: for the witness base 3 (order 2**62 modulo 2**64) and every exponent bit pattern of 8 bits plus the powers of two up to 2**40 '
+                          'the unsigned 64-bit instance yields 3**e mod 2**64; the signed instance yields b**e / 0 for negative exponents on small operands', floor)
+    for signed in (False, True):
+        d, text = _intpow_text(ctx, signed)
+        key = 'CMath.c:IntPow:%s' % ('signed' if signed else 'unsigned')
+        n, prob = powloop_problems(text, signed)
+        r.inst(key, sample='%s: %d evaluations' % (key, n))
+        if prob:
+            r.violate('%s:%s' % (key, prob[0]), 'Cython/Utility/CMath.c', d.line, 'CMath.c::IntPow: ' + prob[1])
+    n, prob = powloop_problems(POWLOOP_POSITIVE, False)
+    r.positive_control(prob is not None and prob[0] == 'value', 'square-and-multiply loop without the squaring step')
+    return r
+
+
+# ------------------------------------------------------------------------------------------------------------------------------ POW2MODEL
+POW2_RID = 'C07-POW2MODEL'
+POW2_MACHINES = (('LP64', 64, 64, 64), ('LLP64 / ILP32-long', 32, 64, 64), ('ILP32', 32, 64, 32))      # long, long long, Py_ssize_t
+
+
+class _Big:
+    """a Python int too large to materialise: 1 << n or 2 ** n kept symbolically"""
+    def __init__(self, kind, base, exp):
+        self.kind, self.base, self.exp = kind, base, exp
+
+    def power_of_two(self):
+        """n if the value is 2**n, else None"""
+        if (self.kind == 'shl1' and self.base == 1) or (self.kind == 'pow2' and self.base == 2):
+            return self.exp
+        return None
+
+    def __eq__(self, o):
+        return isinstance(o, _Big) and self.power_of_two() is not None and self.power_of_two() == o.power_of_two()
+
+    __hash__ = None
+
+    def __repr__(self):
+        return '%d %s %d' % (self.base, '<<' if self.kind == 'shl1' else '**', self.exp)
+
+
+def pow2_hooks(state, digit_bits, ssize_bits):
+    from . import sC05
+    sC05_digit = sC05.DIGIT_BITS
+
+    def pyo(v):
+        return MC.Opaque('pyobj', v)
+
+    def obj(it, a, env):
+        o = it.ev(a, env)
+        if isinstance(o, MC.Opaque) and o.kind == 'null':
+            raise MC.CUndefined('a NULL PyObject* is used')
+        if not (isinstance(o, MC.Opaque) and o.kind == 'pyobj'):
+            raise MC.Unsupported('PyObject* argument is not a model object')
+        return o
+
+    def ival(it, a, env):
+        o = obj(it, a, env)
+        if not isinstance(o.v, int):
+            raise MC.CUndefined('a PyLong accessor is applied to an object that is not an int')
+        return o.v
+
+    def boolv(it, b):
+        return (int(bool(b)), 32, True)
+
+    def T(it, n):
+        return it.model.ctype(n)
+
+    def mk(v, t):
+        return (MC.wrap(v, t[0], t[1]), t[0], t[1])
+
+    def as_ssize(it, args, env):
+        v = ival(it, args[0], env)
+        t = T(it, 'Py_ssize_t')
+        if not MC.fits(v, t[0], True):
+            state.err = 'OverflowError'
+            return mk(-1, t)
+        return mk(v, t)
+
+    def from_c(tname):
+        def h(it, args, env):
+            v = it._int(it.ev(args[0], env))
+            t = T(it, tname)
+            return pyo(MC.wrap(v[0], t[0], t[1]))
+        return h
+
+    def lshift(it, args, env):
+        a, b = obj(it, args[0], env), obj(it, args[1], env)
+        if not isinstance(a.v, int) or not isinstance(b.v, int) or b.v < 0:
+            raise MC.CUndefined('PyNumber_Lshift(%r, %r)' % (a.v, b.v))
+        if b.v > 4096:
+            return pyo(_Big('shl1', a.v, b.v))
+        return pyo(a.v << b.v)
+
+    def power(it, args, env):
+        a, b = obj(it, args[-3], env), obj(it, args[-2], env)
+        if not isinstance(a.v, int):
+            raise MC.CUndefined('PyNumber_Power of a non-int base')
+        if not isinstance(b.v, int):
+            return pyo(('generic-power', a.v, b.v))
+        if b.v > 4096:
+            return pyo(_Big('pow2', a.v, b.v))
+        return pyo(a.v ** b.v)
+
+    def occurred(it, args, env):
+        return MC.Opaque('exc', state.err) if state.err else MC.NULL
+
+    def ignore(it, args, env):
+        e = it.ev(args[0], env)
+        if not (isinstance(e, MC.Opaque) and e.kind == 'exc'):
+            raise MC.CUndefined('__Pyx_IgnoreGivenException of a NULL error')
+        # contract (Exceptions.c::IgnoreException): if the pending exception matches, clear it and return 1, else return 0.  Every exception the model raises is an Exception.
+        state.err = None
+        return boolv(it, True)
+
+    def digits(v):
+        v, out = abs(v), []
+        while v:
+            out.append(v & ((1 << digit_bits) - 1))
+            v >>= digit_bits
+        return out
+    return {
+        'PyLong_CheckExact': lambda it, a, e: boolv(it, isinstance(obj(it, a[0], e).v, int)),
+        '__Pyx_PyLong_IsZero': lambda it, a, e: boolv(it, ival(it, a[0], e) == 0),
+        '__Pyx_PyLong_IsNeg': lambda it, a, e: boolv(it, ival(it, a[0], e) < 0),
+        '__Pyx_PyLong_IsCompact': lambda it, a, e: boolv(it, len(digits(ival(it, a[0], e))) <= 1),
+        '__Pyx_PyLong_CompactValueUnsigned': lambda it, a, e: mk((digits(ival(it, a[0], e)) or [0])[0], T(it, 'size_t')),
+        '__Pyx_PyLong_CompactValue': lambda it, a, e: mk(ival(it, a[0], e), T(it, 'Py_ssize_t')),
+        'PyLong_AsSsize_t': as_ssize,
+        'PyLong_FromLong': from_c('long'), 'PyLong_FromUnsignedLong': from_c('unsigned long'), 'PyLong_FromLongLong': from_c('long long'),
+        'PyLong_FromUnsignedLongLong': from_c('unsigned long long'), 'PyLong_FromSsize_t': from_c('Py_ssize_t'),
+        'PyNumber_Lshift': lshift, 'PyNumber_Power': power, 'PyNumber_InPlacePower': power, '__sa_power': power,
+        'PyErr_Occurred': occurred, '__Pyx_IgnoreGivenException': ignore,
+        'Py_DECREF': lambda it, a, e: None, 'Py_XDECREF': lambda it, a, e: None, 'Py_INCREF': lambda it, a, e: None,
+    }
+
+
+def _pow2_text(ctx, raw=None):
+    if raw is None:
+        d = ctx.cat.files.get('Optimize.c', {}).get('PyNumberPow2', {}).get('impl')
+        if d is None:
+            raise AnalysisError('%s: Optimize.c::PyNumberPow2 vanished' % POW2_RID)
+        raw = d.raw
+    text = strip_c_comments(raw)
+    # typed integer literals (the expression parser drops the suffix): 1L -> ((long)1) ...
+    text = re.sub(r'(?<![\w.])(\d+)[uU][lL][lL]\b', r'((unsigned long long)\1)', text)
+    text = re.sub(r'(?<![\w.])(\d+)[lL][lL]\b', r'((long long)\1)', text)
+    text = re.sub(r'(?<![\w.])(\d+)[uU][lL]\b', r'((unsigned long)\1)', text)
+    text = re.sub(r'(?<![\w.])(\d+)[lL]\b', r'((long)\1)', text)
+    text = re.sub(r'(?<![\w.])(\d+)[uU]\b', r'((unsigned int)\1)', text)
+    # a call through a conditional function designator: (c ? f : g)(args) -> __sa_power(c, args): both designate the same model operation
+    text = re.sub(r'\(\s*(\w+)\s*\?\s*PyNumber_InPlacePower\s*:\s*PyNumber_Power\s*\)\s*\(', r'__sa_power(\1, ', text)
+    return text
+
+
+def pow2_problems(text, variants=None):
+    from . import sC05
+    probs, notes, runs, seen = [], [], 0, set()
+    exps = set(range(-70, 131)) | {-(1 << 31), -(1 << 63) - 1}
+    for k in (29, 30, 31, 32, 59, 60, 61, 62, 63, 64, 65):
+        exps |= {(1 << k) - 1, 1 << k, (1 << k) + 1}
+    variants = variants or (('PyLong internals', dict(CYTHON_USE_PYLONG_INTERNALS=1, CYTHON_COMPILING_IN_PYPY=0)), ('no PyLong internals', dict(CYTHON_USE_PYLONG_INTERNALS=0, CYTHON_COMPILING_IN_PYPY=0)))
+    for vname, cfg in variants:
+        sel = MC.select_variant(text, sC05.pp_truth(cfg))
+        funcs = MC.functions(sel)
+        f = funcs.get('__Pyx__PyNumber_PowerOf2')
+        if f is None:
+            raise AnalysisError('%s: __Pyx__PyNumber_PowerOf2 vanished' % POW2_RID)
+        if len(f.params) != 4:
+            raise AnalysisError('%s: __Pyx__PyNumber_PowerOf2 no longer takes (two, exp, none, inplace)' % POW2_RID)
+        cache = {}
+        for mname, lbits, llbits, sbits in POW2_MACHINES:
+            model = MC.Model({'char': (8, True), 'short': (16, True), 'int': (32, True), 'long': (lbits, True), 'long long': (llbits, True),
+                              'size_t': (sbits, False), 'Py_ssize_t': (sbits, True)}, mname)
+            state = sC05._State()
+            it = MC.Interp(model, funcs, {}, pow2_hooks(state, 30 if sbits == 64 else 15, sbits), cache)
+            it.globals = {'PyExc_Exception': MC.Opaque('exc', 'Exception')}
+            objs = [(e, MC.Opaque('pyobj', e)) for e in sorted(exps)] + [('a float', MC.Opaque('pyobj', ('float', 0.5)))]
+            for e, o in objs:
+                for inplace in (0, 1):
+                    runs += 1
+                    state.err = None
+                    it.steps, it.trace = 0, []
+                    where = '2 ** %s (%s, %s%s)' % (e, mname, vname, ', in place' if inplace else '')
+                    try:
+                        r = it.call_func(f, [MC.Opaque('pyobj', 2), o, MC.Opaque('pyobj', None), (inplace, 32, True)])
+                    except MC.CUndefined as u:
+                        if ('undefined', vname) not in seen:
+                            seen.add(('undefined', vname))
+                            probs.append(('undefined', '%s executes undefined behaviour: %s' % (where, u)))
+                        continue
+                    except MC.Unsupported as u:
+                        note = 'not decided: %s, %s: C text outside the modelled subset (%s)' % (mname, vname, u)
+                        if note not in notes:
+                            notes.append(note)
+                        break
+                    kind = msg = None
+                    if isinstance(r, MC.Opaque) and r.kind == 'null':
+                        if state.err is None:
+                            kind, msg = 'null-without-error', '%s returns NULL without an exception being set (SystemError in the caller)' % where
+                        else:
+                            kind, msg = 'spurious-error', '%s raises %s; CPython computes the power' % (where, state.err)
+                    elif not (isinstance(r, MC.Opaque) and r.kind == 'pyobj'):
+                        kind, msg = 'not-an-object', '%s returns %r' % (where, r)
+                    else:
+                        if not isinstance(e, int):
+                            ok = isinstance(r.v, tuple) and r.v[0] == 'generic-power'
+                            want = 'the generic PyNumber_Power'
+                        elif e > 4096:
+                            ok = r.v == _Big('pow2', 2, e)
+                            want = '2 ** %d' % e
+                        else:
+                            want = 2 ** e
+                            ok = (r.v == want) and type(r.v) is type(want)
+                        if not ok:
+                            kind, msg = 'wrong-value', '%s yields %r, CPython yields %s' % (where, r.v, want)
+                        elif state.err is not None:
+                            kind, msg = 'error-left-set', '%s returns a result but leaves %s set' % (where, state.err)
+                    if kind and (kind, vname) not in seen:
+                        seen.add((kind, vname))
+                        probs.append((kind, msg))
+    return runs, probs, notes
+
+
+POW2_POSITIVE = '''
+static PyObject* __Pyx__PyNumber_PowerOf2(PyObject *two, PyObject *exp, PyObject *none, int inplace) {
+    Py_ssize_t shiftby;
+    if (likely(PyLong_CheckExact(exp))) {
+        if (__Pyx_PyLong_IsCompact(exp)) {
+            shiftby = __Pyx_PyLong_CompactValueUnsigned(exp);
+        } else {
+            shiftby = PyLong_AsSsize_t(exp);
+        }
+    } else {
+        goto fallback;
+    }
+    if (likely(shiftby >= 0)) {
+        if ((size_t)shiftby <= sizeof(long) * 8 - 2) {
+            long value = ((long)1) << shiftby;
+            return PyLong_FromLong(value);
+        }
+    }
+fallback:
+    return __sa_power(inplace, two, exp, none);
+}
+'''
+
+
+def rule_pow2model(ctx, floor=5):
+    r = Rule(POW2_RID, '__Pyx__PyNumber_PowerOf2 returns 2 ** exp as CPython computes it for every exponent of the boundary partition (negative, zero, each shift-width arm, '
+                       'beyond Py_ssize_t, non-int), never NULL without an exception (model PyLong, LP64 / LLP64 / ILP32, with and without PyLong internals)', floor)
+    text = _pow2_text(ctx)
+    runs, probs, notes = pow2_problems(text)
+    for vname in ('PyLong internals', 'no PyLong internals'):
+        for m in POW2_MACHINES:
+            r.inst('Optimize.c:PyNumberPow2:%s:%s' % (vname, m[0]), sample='PyNumberPow2: %s / %s' % (vname, m[0]))
+    for n in notes:
+        r.info(n)
+    r.info('%d evaluations' % runs)
+    d = ctx.cat.files.get('Optimize.c', {}).get('PyNumberPow2', {}).get('impl')
+    for kind, msg in probs:
+        r.violate('Optimize.c:PyNumberPow2:%s' % kind, 'Cython/Utility/Optimize.c', d.line, 'Optimize.c::PyNumberPow2: ' + msg)
+    pr, pp, pn = pow2_problems(POW2_POSITIVE, variants=(('PyLong internals', dict(CYTHON_USE_PYLONG_INTERNALS=1, CYTHON_COMPILING_IN_PYPY=0)),))
+    r.positive_control(any(k == 'wrong-value' for k, _m in pp), 'compact magnitude used as shift count without a negativity rejection (2 ** -3 == 8)')
+    return r
+
+
+# ------------------------------------------------------------------------------------------------------------------------------ CPOW
+CPOW_RID = 'C07-CPOW'
+ENTRY_POINTS = ('infer_type', 'analyse_types')
+
+
+def cpow_assignments(cls):
+    """[(method name, fn, assign stmt)] for `self.is_cpow = <expr>` with a non-constant value"""
+    out = []
+    for name, fn in cls.methods.items():
+        for s in walk_no_nested(fn):
+            if isinstance(s, ast.Assign) and any(is_self_attr(t) and t.attr == 'is_cpow' for t in s.targets) and not isinstance(s.value, ast.Constant):
+                out.append((name, fn, s))
+    return out
+
+
+def cpow_value_problems(fn, stmt, okeys):
+    from . import pC02 as P
+    probs = []
+    reads = []
+    params = {a.arg for a in fn.args.args} - {'self'}
+    env = {}
+    for n in walk_no_nested(fn):
+        if isinstance(n, ast.Assign) and len(n.targets) == 1 and isinstance(n.targets[0], ast.Name):
+            env.setdefault(n.targets[0].id, []).append(n.value)
+
+    def root_of(e):
+        while isinstance(e, (ast.Attribute, ast.Subscript, ast.Call)):
+            e = e.value if not isinstance(e, ast.Call) else e.func
+        return e
+    value = stmt.value
+    for n in ast.walk(value):
+        if isinstance(n, ast.Subscript) and isinstance(n.slice, ast.Constant) and isinstance(n.slice.value, str):
+            base = n.value
+            # a local that holds X.directives
+            if isinstance(base, ast.Name) and len(env.get(base.id, [])) == 1:
+                base = env[base.id][0]
+            if isinstance(base, ast.Attribute) and base.attr in ('directives', 'current_directives'):
+                reads.append((n, base, n.slice.value))
+    for n in ast.walk(value):
+        if isinstance(n, ast.Attribute) and n.attr in ('_directive_defaults', 'get_directive_defaults', 'directive_defaults'):
+            probs.append(('defaults', 'reads %s: the global default replaces the cpow directive of the enclosing scope (`# cython: cpow=True`, @cython.cpow are ignored)' % ast.unparse(n)))
+    if not reads:
+        if not probs:
+            probs.append(('no-directive', 'is computed without reading directives[...]'))
+        return probs
+    for n, base, key in reads:
+        r0 = root_of(base)
+        if not (isinstance(r0, ast.Name) and r0.id in params):
+            probs.append(('unscoped', 'reads the directive from %s, which is not the scope handed to the method' % ast.unparse(base)))
+        if key != 'cpow':
+            probs.append(('key', 'reads directive %r instead of \'cpow\'' % key))
+        elif key not in okeys:
+            probs.append(('key', 'reads directive %r which Options._directive_defaults does not define' % key))
+    if len(reads) == 1 and not probs:
+        txt = ast.unparse(reads[0][0])
+        import copy
+
+        class Sub(ast.NodeTransformer):
+            def visit_Subscript(self, n):
+                if ast.unparse(n) == txt:
+                    return ast.Name(id='__cpow__', ctx=ast.Load())
+                return self.generic_visit(n)
+        v2 = Sub().visit(copy.deepcopy(value))
+        try:
+            vals = {d: bool(P.Ev(subst={'__cpow__': d}).ev(v2)) for d in (False, True)}
+        except P.Unknown:
+            vals = None
+        if vals is not None and vals != {False: False, True: True}:
+            probs.append(('polarity', 'is %s when the directive is False and %s when it is True: the two columns of the documented cpow table are exchanged' % (vals[False], vals[True])))
+    return probs
+
+
+def cpow_reachable_when_unset(fn, stmt):
+    """the assignment is executed on some path on which self.is_cpow is None"""
+    from . import pC02 as P
+    for t, pc in P.path_conditions(fn, lambda n: n is stmt.value):
+        tests = [x for x, _ in pc]
+        try:
+            for subst, av, vals in P.truth_table(tests, {'self.is_cpow': [None]}):
+                if P.conj_holds(pc, vals):
+                    return True
+        except P.Unknown:
+            return True
+        return False
+    return True
+
+
+def precedes_problems(fn, setter):
+    """'missing' if some path of fn reaches its super()/Base delegation without calling self.<setter>(...) first"""
+    def tr(node, state):
+        s = set(state)
+        for c in pyflow.calls_in(node):
+            f = c.func
+            if isinstance(f, ast.Attribute) and f.attr == setter and isinstance(f.value, ast.Name) and f.value.id == 'self':
+                s.add('set')
+            elif isinstance(f, ast.Attribute) and f.attr == fn.name and (
+                    (isinstance(f.value, ast.Call) and isinstance(f.value.func, ast.Name) and f.value.func.id == 'super') or
+                    (isinstance(f.value, ast.Name) and f.value.id != 'self' and c.args and isinstance(c.args[0], ast.Name) and c.args[0].id == 'self')):
+                s.add('delegated' if 'set' in s else 'unset-delegation')
+        return frozenset(s)
+    o = pyflow.Flow(tr).run(fn)
+    return any('unset-delegation' in st for st in (o.normal | o.returns))
+
+
+def rule_cpow(ctx, floor=3):
+    ix = ctx.index
+    r = Rule(CPOW_RID, 'PowNode.is_cpow is assigned from the scoped directive directives[\'cpow\'] with the right polarity, and infer_type / analyse_types call the assigning method before '
+                       'they delegate upwards', floor)
+    cls = ix.cls('ExprNodes', 'PowNode')
+    if cls is None:
+        raise AnalysisError('%s: ExprNodes.PowNode vanished' % CPOW_RID)
+    rel = cls.module.rel
+    otree = ctx.parse('Cython/Compiler/Options.py')
+    dflt = tables.module_assign(otree, '_directive_defaults')
+    okeys = {tables.literal(k) for k in dflt.keys if k is not None} if isinstance(dflt, ast.Dict) else set()
+    if 'cpow' not in okeys:
+        raise AnalysisError('%s: Options._directive_defaults no longer defines cpow' % CPOW_RID)
+    assigns = cpow_assignments(cls)
+    if not assigns:
+        raise AnalysisError('%s: PowNode no longer assigns self.is_cpow from an expression' % CPOW_RID)
+    setters = set()
+    for name, fn, st in assigns:
+        if name == 'coerce_to':
+            continue
+        key = '%s.%s:is_cpow' % (cls.qual, name)
+        r.inst(key, sample='%s = %s' % (key, ast.unparse(st.value)[:80]))
+        setters.add(name)
+        for k, msg in cpow_value_problems(fn, st, okeys):
+            r.violate('%s:%s' % (key, k), rel, st.lineno, '%s %s' % (key, msg))
+        if not cpow_reachable_when_unset(fn, st):
+            r.violate('%s:unreachable' % key, rel, st.lineno, '%s is not reached while self.is_cpow is still None (the class default): the directive is never read, is_cpow stays None (falsy) '
+                                                              'and `cpow=True` is ignored' % key)
+    for ep in ENTRY_POINTS:
+        key = '%s.%s:sets-is_cpow' % (cls.qual, ep)
+        r.inst(key, sample=key)
+        fn = cls.methods.get(ep)
+        if fn is None:
+            r.violate(key + ':missing', rel, cls.node.lineno if hasattr(cls, 'node') else 1,
+                      '%s does not override %s: type analysis reaches compute_c_result_type with is_cpow still None, so the cpow directive is ignored (treated as cpow=False)' % (cls.qual, ep))
+            continue
+        if ep in setters:
+            continue
+        bad = [s for s in setters if s not in ENTRY_POINTS]
+        calls = [c for c in walk_no_nested(fn) if isinstance(c, ast.Call) and isinstance(c.func, ast.Attribute)]
+        if not any(not precedes_problems(fn, s) and any(c.func.attr == s for c in calls) for s in bad):
+            r.violate(key, rel, fn.lineno, '%s.%s delegates to the base class without calling self.%s(env) first on some path: is_cpow is still None (falsy) when compute_c_result_type runs, '
+                                           'so `cpow=True` is ignored for nodes analysed through this entry point' % (cls.qual, ep, '/'.join(sorted(bad)) or '<setter>'))
+    pcf = ast.parse("def _check_cpow(self, env):\n    self.is_cpow = not Options.get_directive_defaults()['cpow']\n").body[0]
+    pc = {k for k, _m in cpow_value_problems(pcf, pcf.body[0], okeys)}
+    pcf2 = ast.parse("def analyse_types(self, env):\n    if env.x:\n        self._check_cpow(env)\n    return super().analyse_types(env)\n").body[0]
+    r.positive_control('defaults' in pc and precedes_problems(pcf2, '_check_cpow'), 'directive read from Options defaults; setter skipped on one path')
+    return r
